@@ -786,6 +786,22 @@ def rule_dce(ctx):
         not any('_remove_ugen' in norm(s) for s in body[1:])
     ctx.ob('C01.dce', f'{so.module.name}:SynthObject._perform_dead_code_elimination:guard', ok,
            'a unit may be dropped only under `not self._descendants`', f.node, so.module)
+    # a unit may use the same input in several slots (x * x): per-input bookkeeping on the edge *sets* inside a loop over the
+    # inputs must be idempotent (add / discard); set.remove raises on the second visit and the definition cannot be built
+    um = repo.module('sc3.synth.ugen')
+    k = 0
+    for fi in um.functions.values():
+        for lp in walk_local(fi.node):
+            if not (isinstance(lp, ast.For) and norm(lp.iter) in ('self.inputs', 'self._inputs')):
+                continue
+            for c in U.calls(lp):
+                if isinstance(c.func, ast.Attribute) and isinstance(c.func.value, ast.Attribute) and \
+                        c.func.value.attr in ('_descendants', '_antecedents') and c.func.attr in ('remove', 'discard', 'add'):
+                    k += 1
+                    ctx.ob('C01.dce', f'{fi.fq}:{norm(c)}:repeated-input', c.func.attr != 'remove',
+                           f'{norm(c)} runs once per input slot; an input used in two slots makes the second set.remove raise KeyError '
+                           f'(graphs such as `x * x` with x used elsewhere stop compiling)', c, um)
+    ctx.require(k >= 2, 'C01.dce', f'only {k} per-input edge updates found')
     # which _optimize_graph implementations reach DCE
     reach = {}
     for fi in repo.functions.values():
@@ -818,7 +834,31 @@ def rule_dce(ctx):
     ctx.extra['eliminable_classes'] = sorted(c.name for c in pure)
 
 
+def rule_const(ctx):
+    ctx.rule('C01.const', 'numeric inputs reach the definition as the constants the source wrote: collected as float(input), looked up '
+                          'by the same float, written once each; the table must not conflate values the server distinguishes')
+    repo = ctx.repo
+    sd = repo.cls('sc3.synth.synthdef:SynthDef')
+    a = sd.methods['_add_constant']
+    p = a.params[1]
+    src = full(a.node)
+    ok = f'if {p} not in self._constant_set: self._constant_set.add({p}) self._constants[{p}] = len(self._constants)' in src
+    ctx.ob('C01.const', f'{a.fq}:dense-index', ok, 'a new constant gets the next index, an old one keeps its index', a.node, a.module)
+    cc = repo.func('sc3.synth.ugen:SynthObject._collect_constants')
+    ctx.ob('C01.const', f'{cc.fq}', 'if isinstance(input, (int, float)): self._synthdef._add_constant(float(input))' in full(cc.node),
+           'every numeric input is collected as float', cc.node, cc.module)
+    w = repo.func('sc3.synth._graphparam:UGenScalar._write_input_spec')
+    ctx.ob('C01.const', f'{w.fq}', 'const_index = synthdef._constants[float(self._param_value)]' in full(w.node),
+           'a numeric input is wired to the constant with the same float value', w.node, w.module)
+    # float keys compare with ==: -0.0 and 0.0 share one entry (atan2(x, -0.0) is wired to +0.0 when 0.0 is also a constant)
+    keyed_by_value = f'self._constants[{p}]' in src and 'copysign' not in src and 'pack(' not in src
+    ctx.ob('C01.const', f'{a.fq}:signed-zero', not keyed_by_value,
+           'the constants table is a dict keyed by the float value: -0.0 == 0.0, so a definition that uses both emits only the one seen '
+           'first and wires the other input to it (sign of zero lost; sclang\'s Dictionary does the same)', a.node, a.module)
+
+
 def run(ctx):
+    rule_const(ctx)
     rule_opc(ctx)
     rule_sel(ctx)
     rule_rate(ctx)
@@ -830,6 +870,8 @@ def run(ctx):
 
 
 MUTANTS = [
+    dict(rule='C01.dce', name='(fix reverted) DCE removes the edge with set.remove per input slot', file='sc3/synth/ugen.py',
+         old="                    input._descendants.discard(self)", new="                    input._descendants.remove(self)"),
     dict(rule='C01.opc', name='swap two unary rows', file='sc3/synth/_specialindex.py',
          old="    ('midicps',),\n    ('cpsmidi',),", new="    ('cpsmidi',),\n    ('midicps',),"),
     dict(rule='C01.opc', name='delete a binary row', file='sc3/synth/_specialindex.py',
